@@ -125,6 +125,13 @@ func runC14(c *sim.Ctx) *sim.Violation {
 			f, _ := ref.Encode(a)
 			return f
 		}
+		if t.Bool(1, 16) {
+			// lists that are EMPTY on the wire (a SUBACK/UNSUBACK without reason codes, a
+			// SUBSCRIBE/UNSUBSCRIBE without filters): what a decoder keeps for "nothing"
+			// can still be a handle on its input
+			return [][]byte{{0x90, 0x03, 0x00, 0x01, 0x00}, {0xB0, 0x03, 0x00, 0x02, 0x00}, {0x82, 0x03, 0x00, 0x03, 0x00}, {0xA2, 0x02, 0x00, 0x04},
+				{0x90, 0x09, 0x00, 0x01, 0x06, 0x26, 0x00, 0x01, 'k', 0x00, 0x00}}[t.Int(5)]
+		}
 		if t.Bool(1, 12) {
 			// remaining length 0: type 0 with any flags, PINGREQ, PINGRESP, DISCONNECT,
 			// AUTH - frames for which a decoder could hand out one shared object
